@@ -385,6 +385,25 @@ def x7_shims(text, log):
         return "vx_splitn2(%s, %s)" % (m.group(1), m.group(2))
     text = re.sub(r"\b([a-z_][a-z0-9_]*)\.splitn\(2, ('.')\)\.collect\(\)", splitn, text)
 
+    def encstep(m):
+        log.add("X7:vx_encode_step+vx_str_from")
+        rng = m.group(3)
+        lo, _, hi = rng.partition("..")
+        src = "vx_str_from(%s, %s)" % (m.group(2), lo) if hi == "" else "vx_str_range(%s, %s, %s)" % (m.group(2), lo, hi)
+        return "vx_encode_step(&mut %s, %s, &mut %s, %s)" % (m.group(1), src, m.group(4), m.group(5).strip()) + _nl(m.group(0))
+    text = re.sub(r"\b([a-z_][a-z0-9_]*)\s*\.encode_from_utf8_without_replacement\(\s*&([a-z_][a-z0-9_]*)\[([a-z_][a-z0-9_]*\.\.(?:[a-z_][a-z0-9_]*)?)\],\s*&mut ([a-z_][a-z0-9_]*)\[\.\.\],\s*((?:[^,()]|\([^()]*\))+?),?\s*\)", encstep, text)
+
+    def strlen(m):
+        log.add("X7:vx_str_len")
+        return "vx_str_len(string)"
+    if "vx_encode_step(" in text:
+        text = re.sub(r"\bstring\.len\(\)", strlen, text)
+
+    def arrprefix(m):
+        log.add("X7:vx_array_prefix")
+        return "vx_array_prefix(&%s, %s)" % (m.group(1), m.group(2))
+    text = re.sub(r"&(buffer)\[\.\.([a-z_][a-z0-9_]*)\]", arrprefix, text)
+
     def bsearch(m):
         log.add("X7:vx_bsearch_key0")
         return "vx_bsearch_key0(%s, %s)" % (m.group(1), m.group(2))
@@ -722,6 +741,7 @@ class FnSpec:
         self.loops = {}
         self.before = []
         self.after = []
+        self.afterstmt = []
         self.opts = []
         self.bodystart = []
         self.bodyend = []
@@ -778,6 +798,12 @@ def parse_template(tpath):
                 cur_block = cur_fn.contract
             elif d.startswith("loop "):
                 cur_block = cur_fn.loops.setdefault(int(d[5:]), [])
+            elif d.startswith("afterstmt "):
+                # after the END of the statement that contains the snippet (next `;` at nesting depth 0)
+                m = re.match(r"(?:(\d+)\s+)?`(.*)`$", d.split(" ", 1)[1].strip())
+                blk = []
+                cur_fn.afterstmt.append((m.group(2).replace("\\n", "\n"), blk, i + 1, int(m.group(1) or 1)))
+                cur_block = blk
             elif d.startswith("before ") or d.startswith("after "):
                 kind, rest = d.split(" ", 1)
                 m = re.match(r"(?:(\d+)\s+)?`(.*)`$", rest.strip())
@@ -1007,6 +1033,21 @@ class Extractor:
             inserts.append((find_nth(snip, nth), blk))
         for (snip, blk, tl, nth) in fs.after:
             inserts.append((find_nth(snip, nth) + len(snip), blk))
+        for (snip, blk, tl, nth) in fs.afterstmt:
+            k = find_nth(snip, nth)
+            depth = 0
+            while k < len(body_masked):
+                ch = body_masked[k]
+                if ch in "([{":
+                    depth += 1
+                elif ch in ")]}":
+                    depth -= 1
+                elif ch == ";" and depth <= 0:
+                    break
+                k += 1
+            if k >= len(body_masked):
+                raise AnchorLost("%s: statement end after `%s` not found" % (ident, snip))
+            inserts.append((k + 1, blk))
         if fs.bodystart:
             inserts.append((1, fs.bodystart))
         if fs.bodyend:
